@@ -348,6 +348,11 @@ def main(pid, run):
     except subprocess.TimeoutExpired as e:
         print("INFRA-FAILURE property=%s: timeout %s" % (pid, e), flush=True)
         rc = 2
+    except Exception as e:  # a dead harness process (killed, out of memory), a broken pipe, a bug of the check itself: never a verdict
+        import traceback
+        traceback.print_exc()
+        print("INFRA-FAILURE property=%s: %s: %s" % (pid, type(e).__name__, str(e)[:300]), flush=True)
+        rc = 1 if ctx.violations else 2
     finally:
         ctx.cleanup()
     ctx.log("done rc=%d violations=%d known=%d" % (rc, len(ctx.violations), len(ctx.known)))
